@@ -2,7 +2,7 @@
 From Coq Require Import List NArith Bool.
 From Frugal Require Import Bytes Wire Skip Values Desc Spec Encode Decode Checks Tags State Bitset Alloc DescMap Conc LegacyDefs.
 From Frugal.gen Require Import Params.
-From Frugal.proofs Require Import GenOk BytesWire EncodeSpec SizeExact SkipPut DecodeSafe DecodeRefines RoundTrip Corollaries StateProofs BitsetProofs AllocProofs DescMapProofs ConcProofs BufferContract.
+From Frugal.proofs Require Import GenParams SkipPut Corollaries.
 From Frugal.props Require Import Examples.
 Import ListNotations.
 
@@ -38,3 +38,8 @@ Example C03_instance :
   (decode_object env_ex [] 0 (put (WStruct msg_ex []) ++ [255]) v_ex
    = top_dres (absorb_top env_ex 0 (WStruct msg_ex []) v_ex) (len (put (WStruct msg_ex []))) [255]).
 Proof. split; vm_compute; reflexivity. Qed.
+
+(* the side conditions on the generated constants and tables that the theorems above assume hold
+   for what the translator read from the sources of this run *)
+Theorem C03_side_conditions : params_ok = true.
+Proof. exact params_ok_holds. Qed.
